@@ -7,12 +7,18 @@ LEVEL_TEXT = (
     "metadata value of every citation returned by the model of get_citations is an infix of the text inside the "
     "citation's full span, or -- for parallel full case citations sharing a defined start -- inside the span of a "
     "returned citation starting at the same place (Proofs/PipeMeta.v). Tied to the code by field-by-field "
-    "correspondence with recorded regex calls; the easter-egg result for 'eyecite' is a known finding."
+    "correspondence with recorded regex calls; the easter-egg result for 'eyecite' is a known finding. The closing "
+    "clause of the property (never from a different, unrelated citation) is NOT a theorem: on documents whose sentences "
+    "hold one citation each, with ground truth from the generator, the implementation violates it in two ways that are "
+    "listed as known findings (the `extra` group running into the next citation; the case-name scan crossing the "
+    "previous citation)."
 )
 RULE = (
     "find: corpus of defect witnesses + seeded citation-dense documents (consecutive citations with and without case "
     "names, parallel cites, California-style leading years, nested parentheticals, hostile fragments). Non-trivial = "
-    "at least two citations returned; distinct by the document text."
+    "at least two citations returned; distinct by the document text. neighbours: 2-3 sentences, one citation of a different "
+    "case each (own names / own year present or absent), every extracted year and party compared with what was written "
+    "for that citation."
 )
 ASSUMPTIONS = [
     "regex searches respect the span contract search_ok (checked on every recorded call)",
@@ -32,3 +38,96 @@ def mon(text, run, run_ra):
 def run(ctx):
     th = ctx.tier == "thorough"
     pipe_stream.run(ctx, [("C17", mon)], 1500 if th else 170)
+    run_neighbours(ctx, 1500 if th else 200)
+
+
+# ---- second sentence of C17: "never takes its year, parties or other metadata from text that belongs to a
+# different, unrelated citation" -- documents with ground truth: every sentence holds one citation of a different
+# case with its own names and year
+SHAPE_EXTRA = "extra-runs-into-next-citation"
+SHAPE_NAME = "case-name-scan-crosses-previous-citation"
+
+
+def neighbour_docs(rng, n):
+    from harness import textgen
+
+    out = []
+    reps = ["U.S.", "F.2d", "F.3d", "S. Ct.", "Cal. 4th", "N.E.2d"]
+    years = ["1954", "1971", "1993", "1999", "2005", "2012"]
+    fill = ["That case is old.", "We disagree.", "The point is settled.", ""]
+    for _ in range(n):
+        k = rng.choice([2, 2, 3])
+        ys = rng.sample(years, k)
+        names = rng.sample(textgen.NAMES, 2 * k)
+        sents = []
+        for i in range(k):
+            named = rng.random() < 0.6
+            dated = rng.random() < 0.7
+            cite = f"{rng.choice([1, 3, 12])} {rng.choice(reps)} {rng.choice([1, 45, 345])}"
+            lead = rng.choice(["", "See ", "We rely on ", "Compare "])
+            txt = lead + (f"{names[2 * i]} v. {names[2 * i + 1]}, " if named else "") + cite + (f" ({ys[i]})" if dated else "") + "."
+            sents.append(dict(text=txt, cite=cite, names=(names[2 * i], names[2 * i + 1]) if named else None,
+                              year=ys[i] if dated else None))
+            if rng.random() < 0.5:
+                f_ = rng.choice(fill)
+                if f_:
+                    sents.append(dict(text=f_, cite=None, names=None, year=None))
+        pos = 0
+        for s_ in sents:
+            s_["start"] = pos
+            pos += len(s_["text"]) + 1
+            s_["end"] = pos - 1
+        out.append((" ".join(s_["text"] for s_ in sents), sents))
+    return out
+
+
+def run_neighbours(ctx, n):
+    from eyecite import get_citations
+    from eyecite.models import FullCaseCitation
+
+    for doc, sents in neighbour_docs(ctx.rng, n):
+        try:
+            cs = [c for c in get_citations(doc) if isinstance(c, FullCaseCitation)]
+        except Exception:  # noqa
+            continue
+        cited = [s_ for s_ in sents if s_["cite"]]
+        ctx.case("neighbours", doc, len(cs) >= 2, dict(text=doc) if len(ctx.samples) < 12 and len(cs) >= 2 else None)
+        ctx.count("document of unrelated one-citation sentences")
+        for c in cs:
+            own = [s_ for s_ in cited if s_["start"] <= c.span()[0] and c.span()[1] <= s_["end"]]
+            if len(own) != 1:
+                continue
+            own = own[0]
+            others = [s_ for s_ in cited if s_ is not own]
+            md = c.metadata
+            bad = None
+            shape = None
+            # the mechanism of the second known finding, read off the results: an EARLIER extracted citation that lies in
+            # another sentence shares this citation's (defined) full-span start, i.e. the backward scan for the case
+            # name (to 'v.' or a stop word such as 'See') crossed it and is_parallel_citation copied its metadata
+            inherited = c.full_span_start is not None and any(
+                d is not c and d.span()[0] < c.span()[0] and d.full_span_start == c.full_span_start
+                and not (own["start"] <= d.span()[0] < own["end"]) for d in cs)
+            prev = {"year": None}
+            for d in cs:
+                if d is not c and d.span()[0] < c.span()[0] and d.full_span_start == c.full_span_start:
+                    prev = {"year": d.metadata.year}
+            if md.year and md.year != own["year"] and any(md.year == o["year"] for o in others):
+                bad = f"year {md.year!r} of {c.matched_text()!r} is the year written for a different citation"
+                donors = [o for o in others if o["year"] == md.year]
+                if own["year"] is None and any(o["start"] > own["start"] and o["cite"] in (md.extra or "") for o in donors):
+                    shape = SHAPE_EXTRA
+                elif inherited and prev["year"] == md.year:
+                    shape = SHAPE_NAME
+                elif inherited and any(o["start"] > own["start"] and o["cite"] in (md.extra or "") for o in donors):
+                    shape = SHAPE_EXTRA      # both at once: names from the previous, year from the next
+            for fld in ("plaintiff", "defendant"):
+                v = getattr(md, fld, None)
+                if v and not (own["names"] and v in own["text"]) and any(o["names"] and v in o["names"] for o in others):
+                    bad = bad or f"{fld} {v!r} of {c.matched_text()!r} is a party of a different citation"
+                    if shape is None and inherited:
+                        shape = SHAPE_NAME
+            if bad:
+                ctx.violation(shape, "C17: " + bad, dict(stream="neighbours", text=doc))
+                break
+    ctx.streams.append("neighbours")
